@@ -1,78 +1,134 @@
 /* jwt_c.h -- named contracts for the functions of libjwt/jwt.c.
  * Attached to the REAL definitions (including the static ones) with
  *    --enforce-contract  f/contract_Cxx_f
- * The forward declarations below only make the static functions nameable from
- * the harness that follows the #include of the real source. */
+ * One contract text per function (DECL_<fn> macros); the property-specific
+ * clauses are appended per property so that a failing obligation names the
+ * property it belongs to. */
 #ifndef VERIF_JWT_C_H
 #define VERIF_JWT_C_H
 #include "spec.h"
 #include "ops.h"
+#include "jwt_memory_c.h"
 
+#ifdef VERIF_TU_JWT
 static int __check_hmac(jwt_t *jwt);
 static int __check_key_bits(jwt_t *jwt);
+static int _verify_sha_hmac(jwt_t *jwt, const char *head, unsigned int head_len, const char *sig);
+#endif
 
 VERIF_OBS_DECL(alg) VERIF_OBS_DECL(bits) VERIF_OBS_DECL(kty)
 #define JWT_WITH_KEY(jwt) (__CPROVER_is_fresh(jwt, sizeof(*jwt)) && \
 			   __CPROVER_is_fresh((jwt)->key, sizeof(*(jwt)->key)))
 
-/* ===================== C09: key-strength floor ========================== */
+/* ============ C09 key-strength floor / C02 key-family gate ============== */
 /* bits travels through `int key_bits = jwt->key->bits`; the stated range is
  * what process_octet / EVP_PKEY_get_size_t_param can produce (DESIGN s.5) */
 #define C09_BITS_RANGE(jwt) ((jwt)->key->bits <= 0x7fffffff)
-
-int contract_C09___check_hmac(jwt_t *jwt)
-__CPROVER_requires(JWT_WITH_KEY(jwt))
-__CPROVER_requires(C09_BITS_RANGE(jwt))
-__CPROVER_requires(SPEC_ERRMSG_TERMINATED(jwt))
+#define CHK_COMMON_REQ(jwt) \
+__CPROVER_requires(JWT_WITH_KEY(jwt)) \
+__CPROVER_requires(C09_BITS_RANGE(jwt)) \
+__CPROVER_requires(SPEC_ERRMSG_TERMINATED(jwt)) \
 __CPROVER_requires(OBS(alg, jwt->alg) && OBS(bits, jwt->key->bits) && OBS(kty, jwt->key->kty))
-__CPROVER_assigns(jwt->error, SPEC_ERRMSG_FRAME(jwt))
-__CPROVER_ensures(__CPROVER_return_value == 0 || __CPROVER_return_value == 1)
-/* accepted only at or above the floor ... */
-__CPROVER_ensures(__CPROVER_return_value == 0 ==> SPEC_HMAC_OK(jwt->alg, jwt->key->bits))
-/* ... and keys at or above the floor work */
-__CPROVER_ensures(SPEC_HMAC_OK(jwt->alg, jwt->key->bits) ==> __CPROVER_return_value == 0)
-/* a refusal for an HS algorithm is reported: flag and non-empty message */
-__CPROVER_ensures((__CPROVER_return_value != 0 && SPEC_IS_HS(jwt->alg)) ==>
-		  (jwt->error == 1 && jwt->error_msg[0] != 0))
-__CPROVER_ensures(__CPROVER_return_value == 0 ==> jwt->error == __CPROVER_old(jwt->error))
-__CPROVER_ensures(SPEC_ERRMSG_TERMINATED(jwt))
-;
 
-int contract_C09___check_key_bits(jwt_t *jwt)
-__CPROVER_requires(JWT_WITH_KEY(jwt))
-__CPROVER_requires(C09_BITS_RANGE(jwt))
-__CPROVER_requires(SPEC_ERRMSG_TERMINATED(jwt))
-__CPROVER_requires(OBS(alg, jwt->alg) && OBS(bits, jwt->key->bits) && OBS(kty, jwt->key->kty))
-__CPROVER_assigns(jwt->error, SPEC_ERRMSG_FRAME(jwt))
-__CPROVER_ensures(__CPROVER_return_value == 0 || __CPROVER_return_value == 1)
-__CPROVER_ensures(__CPROVER_return_value == 0 ==> SPEC_ASYM_OK(jwt->alg, jwt->key->bits))
-__CPROVER_ensures(SPEC_ASYM_OK(jwt->alg, jwt->key->bits) ==> __CPROVER_return_value == 0)
-__CPROVER_ensures((__CPROVER_return_value != 0 && SPEC_IS_ASYM(jwt->alg)) ==>
-		  (jwt->error == 1 && jwt->error_msg[0] != 0))
-__CPROVER_ensures(__CPROVER_return_value == 0 ==> jwt->error == __CPROVER_old(jwt->error))
-__CPROVER_ensures(SPEC_ERRMSG_TERMINATED(jwt))
-;
+#define DECL___check_hmac(NAME, CLAUSES) \
+int NAME(jwt_t *jwt) \
+CHK_COMMON_REQ(jwt) \
+__CPROVER_assigns(jwt->error, SPEC_ERRMSG_FRAME(jwt)) \
+__CPROVER_ensures(__CPROVER_return_value == 0 || __CPROVER_return_value == 1) \
+/* a refusal for an HS algorithm is reported: flag and non-empty message */ \
+__CPROVER_ensures((__CPROVER_return_value != 0 && SPEC_IS_HS(jwt->alg)) ==> \
+		  (jwt->error == 1 && jwt->error_msg[0] != 0)) \
+__CPROVER_ensures(__CPROVER_return_value == 0 ==> jwt->error == __CPROVER_old(jwt->error)) \
+__CPROVER_ensures(SPEC_ERRMSG_TERMINATED(jwt)) \
+SPEC_ERR_MONOTONE(jwt) \
+CLAUSES
+/* C09: accepted only at or above the floor, and keys at or above the floor
+ * (of the right family) work */
+#define C09_HMAC_CLAUSES \
+__CPROVER_ensures(__CPROVER_return_value == 0 ==> SPEC_HMAC_OK(jwt->alg, jwt->key->bits)) \
+__CPROVER_ensures((SPEC_HMAC_OK(jwt->alg, jwt->key->bits) && jwt->key->kty == JWK_KEY_TYPE_OCT) ==> __CPROVER_return_value == 0)
+/* C02: an HS algorithm is never evaluated with a key of another family */
+#define C02_HMAC_CLAUSES \
+__CPROVER_ensures(__CPROVER_return_value == 0 ==> (SPEC_IS_HS(jwt->alg) && jwt->key->kty == JWK_KEY_TYPE_OCT))
+DECL___check_hmac(contract_C09___check_hmac, C09_HMAC_CLAUSES);
+DECL___check_hmac(contract_C02___check_hmac, C02_HMAC_CLAUSES);
+
+#define DECL___check_key_bits(NAME, CLAUSES) \
+int NAME(jwt_t *jwt) \
+CHK_COMMON_REQ(jwt) \
+__CPROVER_assigns(jwt->error, SPEC_ERRMSG_FRAME(jwt)) \
+__CPROVER_ensures(__CPROVER_return_value == 0 || __CPROVER_return_value == 1) \
+__CPROVER_ensures((__CPROVER_return_value != 0 && SPEC_IS_ASYM(jwt->alg)) ==> \
+		  (jwt->error == 1 && jwt->error_msg[0] != 0)) \
+__CPROVER_ensures(__CPROVER_return_value == 0 ==> jwt->error == __CPROVER_old(jwt->error)) \
+__CPROVER_ensures(SPEC_ERRMSG_TERMINATED(jwt)) \
+SPEC_ERR_MONOTONE(jwt) \
+CLAUSES
+#define C09_KEYBITS_CLAUSES \
+__CPROVER_ensures(__CPROVER_return_value == 0 ==> SPEC_ASYM_OK(jwt->alg, jwt->key->bits)) \
+__CPROVER_ensures((SPEC_ASYM_OK(jwt->alg, jwt->key->bits) && jwt->key->kty == SPEC_KTY_FOR(jwt->alg)) ==> __CPROVER_return_value == 0)
+#define C02_KEYBITS_CLAUSES \
+__CPROVER_ensures(__CPROVER_return_value == 0 ==> (SPEC_IS_ASYM(jwt->alg) && jwt->key->kty == SPEC_KTY_FOR(jwt->alg)))
+DECL___check_key_bits(contract_C09___check_key_bits, C09_KEYBITS_CLAUSES);
+DECL___check_key_bits(contract_C02___check_key_bits, C02_KEYBITS_CLAUSES);
 
 /* jwt_sign: a provider operation is reached only after the matching check
- * accepted THIS algorithm and THIS key; success implies the floor */
-int contract_C09_jwt_sign(jwt_t *jwt, char **out, unsigned int *len, const char *str, unsigned int str_len)
-__CPROVER_requires(JWT_WITH_KEY(jwt))
-__CPROVER_requires(C09_BITS_RANGE(jwt))
-__CPROVER_requires(SPEC_ERRMSG_TERMINATED(jwt))
-__CPROVER_requires(OBS(alg, jwt->alg) && OBS(bits, jwt->key->bits) && OBS(kty, jwt->key->kty))
-__CPROVER_requires(__CPROVER_is_fresh(out, sizeof(*out)) && __CPROVER_is_fresh(len, sizeof(*len)))
-__CPROVER_requires(OPS_TABLE_OBEYS(C09))
-__CPROVER_assigns(*out, *len, jwt->error, SPEC_ERRMSG_FRAME(jwt), OPS_GHOST_ASSIGNS_SIGN)
-__CPROVER_ensures(__CPROVER_return_value == 0 || __CPROVER_return_value == 1)
-__CPROVER_ensures(__CPROVER_return_value == 0 ==> (*len >= 1 && *len <= 1024 && __CPROVER_is_fresh(*out, *len)))
-__CPROVER_ensures(__CPROVER_return_value == 0 ==>
-		  (SPEC_HMAC_OK(jwt->alg, jwt->key->bits) || SPEC_ASYM_OK(jwt->alg, jwt->key->bits)))
-/* below the floor no provider operation was invoked at all */
-__CPROVER_ensures(!(SPEC_HMAC_OK(jwt->alg, jwt->key->bits) || SPEC_ASYM_OK(jwt->alg, jwt->key->bits)) ==>
-		  (g_op_hmac_calls == __CPROVER_old(g_op_hmac_calls) && g_op_sign_calls == __CPROVER_old(g_op_sign_calls)))
-/* "the call fails with an error instead" */
-__CPROVER_ensures(__CPROVER_return_value != 0 ==> (jwt->error != 0 && jwt->error_msg[0] != 0))
-__CPROVER_ensures(SPEC_ERRMSG_TERMINATED(jwt))
+ * accepted THIS algorithm and THIS key (the gate is the precondition of the
+ * provider-op contract, asserted at the call through jwt_ops) */
+#define DECL_jwt_sign(NAME, P, CLAUSES) \
+int NAME(jwt_t *jwt, char **out, unsigned int *len, const char *str, unsigned int str_len) \
+CHK_COMMON_REQ(jwt) \
+__CPROVER_requires(__CPROVER_is_fresh(out, sizeof(*out)) && __CPROVER_is_fresh(len, sizeof(*len))) \
+__CPROVER_requires(OPS_TABLE_OBEYS(P)) \
+__CPROVER_assigns(*out, *len, jwt->error, SPEC_ERRMSG_FRAME(jwt), OPS_GHOST_ASSIGNS_SIGN) \
+__CPROVER_ensures(__CPROVER_return_value == 0 || __CPROVER_return_value == 1) \
+__CPROVER_ensures(__CPROVER_return_value == 0 ==> (*len >= 1 && *len <= 1024 && __CPROVER_is_fresh(*out, *len))) \
+/* "the call fails with an error instead" */ \
+__CPROVER_ensures(__CPROVER_return_value != 0 ==> (jwt->error != 0 && jwt->error_msg[0] != 0)) \
+__CPROVER_ensures(SPEC_ERRMSG_TERMINATED(jwt)) \
+SPEC_ERR_MONOTONE(jwt) \
+/* what was signed: exactly (str, str_len) with this key and algorithm */ \
+__CPROVER_ensures((__CPROVER_return_value == 0 && SPEC_IS_HS(jwt->alg)) ==> \
+	(g_op_hmac_calls == __CPROVER_old(g_op_hmac_calls) + 1 && g_op_hmac_key == jwt->key && \
+	 g_op_hmac_alg == jwt->alg && g_op_hmac_data == str && g_op_hmac_len == str_len)) \
+__CPROVER_ensures((__CPROVER_return_value == 0 && !SPEC_IS_HS(jwt->alg)) ==> \
+	(g_op_sign_calls == __CPROVER_old(g_op_sign_calls) + 1 && g_op_sign_key == jwt->key && \
+	 g_op_sign_alg == jwt->alg && g_op_sign_data == str && g_op_sign_len == str_len)) \
+CLAUSES
+#define C09_FLOOR_OK(jwt) (SPEC_HMAC_OK((jwt)->alg, (jwt)->key->bits) || SPEC_ASYM_OK((jwt)->alg, (jwt)->key->bits))
+#define C02_FAMILY_OK(jwt) (SPEC_IS_SIGNING((jwt)->alg) && (jwt)->key->kty == SPEC_KTY_FOR((jwt)->alg))
+#define NO_SIGN_OPS_CALLED (g_op_hmac_calls == __CPROVER_old(g_op_hmac_calls) && g_op_sign_calls == __CPROVER_old(g_op_sign_calls))
+#define C09_SIGN_CLAUSES \
+__CPROVER_ensures(__CPROVER_return_value == 0 ==> C09_FLOOR_OK(jwt)) \
+__CPROVER_ensures(!C09_FLOOR_OK(jwt) ==> NO_SIGN_OPS_CALLED)
+#define C02_SIGN_CLAUSES \
+__CPROVER_ensures(__CPROVER_return_value == 0 ==> C02_FAMILY_OK(jwt)) \
+__CPROVER_ensures(!C02_FAMILY_OK(jwt) ==> NO_SIGN_OPS_CALLED)
+DECL_jwt_sign(contract_C09_jwt_sign, C09, C09_SIGN_CLAUSES);
+DECL_jwt_sign(contract_C02_jwt_sign, C02, C02_SIGN_CLAUSES);
+DECL_jwt_sign(contract_nogate_jwt_sign, nogate, );
+
+/* ===================== C02: header alg parsing is exact ================= */
+#define STR_ALG_CLAUSE(A) __CPROVER_ensures((alg != NULL && SPEC_NAME_IS(alg, A)) ==> __CPROVER_return_value == (A))
+jwt_alg_t contract_C02_jwt_str_alg(const char *alg)
+__CPROVER_requires(alg == NULL || __CPROVER_r_ok(alg, 1))
+__CPROVER_assigns()
+__CPROVER_ensures(alg == NULL ==> __CPROVER_return_value == JWT_ALG_INVAL)
+__CPROVER_ensures(__CPROVER_return_value >= JWT_ALG_NONE && __CPROVER_return_value <= JWT_ALG_INVAL)
+/* an algorithm is returned only for its exact RFC 7518 name ... */
+__CPROVER_ensures((alg != NULL && __CPROVER_return_value != JWT_ALG_INVAL) ==> SPEC_NAME_IS(alg, __CPROVER_return_value))
+/* ... and every exact name is recognised */
+STR_ALG_CLAUSE(JWT_ALG_NONE) STR_ALG_CLAUSE(JWT_ALG_HS256) STR_ALG_CLAUSE(JWT_ALG_HS384) STR_ALG_CLAUSE(JWT_ALG_HS512)
+STR_ALG_CLAUSE(JWT_ALG_RS256) STR_ALG_CLAUSE(JWT_ALG_RS384) STR_ALG_CLAUSE(JWT_ALG_RS512)
+STR_ALG_CLAUSE(JWT_ALG_ES256) STR_ALG_CLAUSE(JWT_ALG_ES384) STR_ALG_CLAUSE(JWT_ALG_ES512)
+STR_ALG_CLAUSE(JWT_ALG_PS256) STR_ALG_CLAUSE(JWT_ALG_PS384) STR_ALG_CLAUSE(JWT_ALG_PS512)
+STR_ALG_CLAUSE(JWT_ALG_ES256K) STR_ALG_CLAUSE(JWT_ALG_EDDSA)
+;
+/* C05 lemma L1 / C10: the name written for an algorithm is the RFC name */
+const char *contract_C05_jwt_alg_str(jwt_alg_t alg)
+__CPROVER_assigns()
+__CPROVER_ensures(SPEC_ALG_KNOWN(alg) ==> (__CPROVER_return_value != NULL && SPEC_NAME_IS(__CPROVER_return_value, alg)))
+__CPROVER_ensures(!SPEC_ALG_KNOWN(alg) ==> __CPROVER_return_value == NULL)
 ;
 
 /* ====================== shape contracts (shared) ======================= */
@@ -107,10 +163,7 @@ __CPROVER_ensures(__CPROVER_return_value == -1 ==> *_dst == __CPROVER_old(*_dst)
 EXTRA
 DECL_jwt_base64uri_encode(contract_shape_jwt_base64uri_encode, );
 
-/* jwt_strcmp (jwt-memory.c): constant-time comparison; 0 iff equal.  The
- * "equal" direction is stated through the ghost index g_str_k (any index),
- * position 0 and the length. */
-extern size_t g_str_k;
+/* jwt_strcmp (jwt-memory.c), shape only */
 #define DECL_jwt_strcmp(NAME, EXTRA) \
 int NAME(const char *str1, const char *str2) \
 __CPROVER_requires(str1 != NULL && str2 != NULL) \
@@ -118,39 +171,48 @@ __CPROVER_assigns() \
 EXTRA
 DECL_jwt_strcmp(contract_shape_jwt_strcmp, );
 
-/* ---- C09 chain: _verify_sha_hmac, jwt_verify_sig ---- */
-static int _verify_sha_hmac(jwt_t *jwt, const char *head, unsigned int head_len, const char *sig);
-
-#define C09_FLOOR_OK(jwt) (SPEC_HMAC_OK((jwt)->alg, (jwt)->key->bits) || SPEC_ASYM_OK((jwt)->alg, (jwt)->key->bits))
-#define C09_NO_OPS_CALLED (g_op_hmac_calls == __CPROVER_old(g_op_hmac_calls) && \
+/* ---- _verify_sha_hmac, jwt_verify_sig ---- */
+#define NO_OPS_CALLED (g_op_hmac_calls == __CPROVER_old(g_op_hmac_calls) && \
 	g_op_sign_calls == __CPROVER_old(g_op_sign_calls) && g_op_verify_calls == __CPROVER_old(g_op_verify_calls))
 
-int contract_C09__verify_sha_hmac(jwt_t *jwt, const char *head, unsigned int head_len, const char *sig)
-__CPROVER_requires(JWT_WITH_KEY(jwt))
-__CPROVER_requires(C09_BITS_RANGE(jwt))
-__CPROVER_requires(SPEC_ERRMSG_TERMINATED(jwt))
-__CPROVER_requires(OBS(alg, jwt->alg) && OBS(bits, jwt->key->bits) && OBS(kty, jwt->key->kty))
-__CPROVER_requires(sig != NULL)
-__CPROVER_requires(OPS_TABLE_OBEYS(C09))
-__CPROVER_assigns(jwt->error, SPEC_ERRMSG_FRAME(jwt), OPS_GHOST_ASSIGNS)
-__CPROVER_ensures(__CPROVER_return_value == 0 ==> C09_FLOOR_OK(jwt))
-__CPROVER_ensures(!C09_FLOOR_OK(jwt) ==> C09_NO_OPS_CALLED)
-__CPROVER_ensures(SPEC_ERRMSG_TERMINATED(jwt))
-;
+#define DECL__verify_sha_hmac(NAME, P, CLAUSES) \
+int NAME(jwt_t *jwt, const char *head, unsigned int head_len, const char *sig) \
+CHK_COMMON_REQ(jwt) \
+__CPROVER_requires(sig != NULL) \
+__CPROVER_requires(OPS_TABLE_OBEYS(P)) \
+__CPROVER_assigns(jwt->error, SPEC_ERRMSG_FRAME(jwt), OPS_GHOST_ASSIGNS_SIGN) \
+__CPROVER_ensures(__CPROVER_return_value == 0 || __CPROVER_return_value == 1) \
+__CPROVER_ensures(SPEC_ERRMSG_TERMINATED(jwt)) \
+SPEC_ERR_MONOTONE(jwt) \
+CLAUSES
+#define C09_VSH_CLAUSES \
+__CPROVER_ensures(__CPROVER_return_value == 0 ==> C09_FLOOR_OK(jwt)) \
+__CPROVER_ensures(!C09_FLOOR_OK(jwt) ==> NO_SIGN_OPS_CALLED)
+#define C02_VSH_CLAUSES \
+__CPROVER_ensures(__CPROVER_return_value == 0 ==> C02_FAMILY_OK(jwt)) \
+__CPROVER_ensures(!C02_FAMILY_OK(jwt) ==> NO_SIGN_OPS_CALLED)
+DECL__verify_sha_hmac(contract_C09__verify_sha_hmac, C09, C09_VSH_CLAUSES);
+DECL__verify_sha_hmac(contract_C02__verify_sha_hmac, C02, C02_VSH_CLAUSES);
 
-jwt_t *contract_C09_jwt_verify_sig(jwt_t *jwt, const char *head, unsigned int head_len, const char *sig_b64)
-__CPROVER_requires(JWT_WITH_KEY(jwt))
-__CPROVER_requires(C09_BITS_RANGE(jwt))
-__CPROVER_requires(SPEC_ERRMSG_TERMINATED(jwt))
-__CPROVER_requires(OBS(alg, jwt->alg) && OBS(bits, jwt->key->bits) && OBS(kty, jwt->key->kty))
-__CPROVER_requires(sig_b64 != NULL)
-__CPROVER_requires(OPS_TABLE_OBEYS(C09))
-__CPROVER_assigns(jwt->error, SPEC_ERRMSG_FRAME(jwt), OPS_GHOST_ASSIGNS)
-__CPROVER_ensures(__CPROVER_return_value == jwt)
-/* verification succeeds (flag clear) only at or above the floor */
-__CPROVER_ensures((__CPROVER_old(jwt->error) == 0 && jwt->error == 0) ==> C09_FLOOR_OK(jwt))
-/* below the floor: an error WITH a message, and no provider was consulted */
-__CPROVER_ensures(!C09_FLOOR_OK(jwt) ==> (jwt->error != 0 && jwt->error_msg[0] != 0 && C09_NO_OPS_CALLED))
-__CPROVER_ensures(SPEC_ERRMSG_TERMINATED(jwt))
-;
+#define DECL_jwt_verify_sig(NAME, P, CLAUSES) \
+jwt_t *NAME(jwt_t *jwt, const char *head, unsigned int head_len, const char *sig_b64) \
+CHK_COMMON_REQ(jwt) \
+__CPROVER_requires(sig_b64 != NULL) \
+__CPROVER_requires(OPS_TABLE_OBEYS(P)) \
+__CPROVER_assigns(jwt->error, SPEC_ERRMSG_FRAME(jwt), OPS_GHOST_ASSIGNS) \
+__CPROVER_ensures(__CPROVER_return_value == jwt) \
+__CPROVER_ensures(SPEC_ERRMSG_TERMINATED(jwt)) \
+SPEC_ERR_MONOTONE(jwt) \
+CLAUSES
+#define C09_VS_CLAUSES \
+/* verification succeeds (flag clear) only at or above the floor */ \
+__CPROVER_ensures((__CPROVER_old(jwt->error) == 0 && jwt->error == 0) ==> C09_FLOOR_OK(jwt)) \
+/* below the floor: an error WITH a message, and no provider was consulted */ \
+__CPROVER_ensures(!C09_FLOOR_OK(jwt) ==> (jwt->error != 0 && jwt->error_msg[0] != 0 && NO_OPS_CALLED))
+#define C02_VS_CLAUSES \
+__CPROVER_ensures((__CPROVER_old(jwt->error) == 0 && jwt->error == 0) ==> C02_FAMILY_OK(jwt)) \
+__CPROVER_ensures(!C02_FAMILY_OK(jwt) ==> (jwt->error != 0 && jwt->error_msg[0] != 0 && NO_OPS_CALLED))
+DECL_jwt_verify_sig(contract_C09_jwt_verify_sig, C09, C09_VS_CLAUSES);
+DECL_jwt_verify_sig(contract_C02_jwt_verify_sig, C02, C02_VS_CLAUSES);
+
 #endif
